@@ -160,6 +160,12 @@ func (l *Lexer) Split() []*Token {
 			tokStart = i + 1
 		case '"', '\'':
 			if !strStart {
+				// a word directly in front of the quote ends here
+				curr = l.Query[tokStart : tokStart+min(tokLen, l.Length-tokStart)]
+				if token := buildToken(curr, tokStartPos); token != nil {
+					ret = append(ret, token)
+				}
+				tokLen = 0
 				strStart = true
 				strStartChar = char
 				tokStartPos = i
@@ -181,6 +187,12 @@ func (l *Lexer) Split() []*Token {
 			}
 		case '`':
 			if !strStart {
+				// a word directly in front of the quote ends here
+				curr = l.Query[tokStart : tokStart+min(tokLen, l.Length-tokStart)]
+				if token := buildToken(curr, tokStartPos); token != nil {
+					ret = append(ret, token)
+				}
+				tokLen = 0
 				strStart = true
 				strStartChar = char
 				tokStartPos = i
